@@ -23,6 +23,7 @@ class Net:
         self.raw_accept = {}              # port -> list of Endpoint (driver-side listeners)
         self.log = []
         self.cut_after = None             # armed link cut: drop the link after this many more bytes were accepted
+        self.time_wait = {}               # port -> virtual time until which it sits in TIME_WAIT (the endpoint closed an accepted connection first)
 
     def wake(self):
         s = simrt._current
@@ -62,6 +63,10 @@ class Endpoint:
         self.fin = False          # peer closed (EOF after rx drained)
         self.rst = False          # peer closed abortively (SO_LINGER on, 0 s): ECONNRESET after rx drained
         self.total_in = 0
+        self.local_port = None    # accepted connections: the listening port (TIME_WAIT bookkeeping)
+        self.user_timeout = None  # TCP_USER_TIMEOUT of the socket that writes through this end (seconds)
+        self.stall_since = None   # since when bytes written through this end wait, unacknowledged, in the local send queue
+        self.aborted = False      # the kernel gave the connection up (TCP_USER_TIMEOUT)
 
     # driver API
     def free(self):
@@ -76,9 +81,34 @@ class Endpoint:
         self.net.wake()
         return len(data)
 
+    def _now(self):
+        sch = simrt._current
+        return sch.now if sch is not None else 0.0
+
+    def before_read(self):
+        """TCP_USER_TIMEOUT of the writing side: data that sat unacknowledged in its send queue (everything beyond the reader's
+        receive buffer) for longer than the timeout made the kernel abort the connection and discard it."""
+        w = self.peer
+        if w is not None and w.user_timeout and w.stall_since is not None and not w.aborted:
+            if self._now() - w.stall_since > w.user_timeout:
+                lost = max(0, len(self.rx) - self.net.rcvbuf)
+                if lost:
+                    del self.rx[self.net.rcvbuf:]
+                self.net.log.append(("user_timeout", lost))
+                w.aborted = True
+                self.rst = True
+                self.fin = True
+
+    def after_read(self):
+        w = self.peer
+        if w is not None and w.stall_since is not None:
+            w.stall_since = None if len(self.rx) <= self.net.rcvbuf else self._now()
+
     def read(self, n=1 << 30):
+        self.before_read()
         data = bytes(self.rx[:n])
         del self.rx[:n]
+        self.after_read()
         if data:
             self.net.wake()
         return data
@@ -86,6 +116,9 @@ class Endpoint:
     def close(self, abort=False):
         if not self.closed:
             self.closed = True
+            if self.local_port is not None and not abort and self.peer is not None and not self.peer.closed and not self.fin:
+                # the accepting side closes an established connection first (FIN, not RST): its port is in TIME_WAIT for 60 s
+                self.net.time_wait[self.local_port] = self._now() + 60.0
             if self.peer is not None:
                 self.peer.fin = True
                 if abort:
@@ -149,6 +182,10 @@ class SimSocket:
         self.port = addr[1]
         if self.port in self.net.listeners and not self.net.listeners[self.port].closed:
             raise OSError(errno.EADDRINUSE, "address in use")
+        tw = self.net.time_wait.get(self.port)
+        if tw is not None and simrt.cur_sched().now < tw and not self.opts.get((_rs.SOL_SOCKET, _rs.SO_REUSEADDR)):
+            # Linux: a port with a connection in TIME_WAIT can only be bound again by a socket that has SO_REUSEADDR set at bind()
+            raise OSError(errno.EADDRINUSE, "address in use (TIME_WAIT)")
 
     def listen(self, backlog=1):
         if self.closed:
@@ -172,6 +209,7 @@ class SimSocket:
             if self.closed:
                 raise OSError(errno.EBADF, "bad file descriptor")
         ep = self.listener.backlog.pop(0)
+        ep.local_port = self.port
         return SimSocket(net=self.net, ep=ep), ("127.0.0.1", 40000)
 
     # -- client side
@@ -203,6 +241,10 @@ class SimSocket:
             raise OSError(errno.EBADF, "bad file descriptor")
         if self.ep.peer.closed or self.ep.fin and False:
             raise BrokenPipeError(errno.EPIPE, "broken pipe")
+        if self.ep.aborted:
+            raise TimeoutError(errno.ETIMEDOUT, "connection timed out (TCP_USER_TIMEOUT)")
+        ut = self.opts.get((getattr(_rs, "IPPROTO_TCP", 6), getattr(_rs, "TCP_USER_TIMEOUT", 18)))
+        self.ep.user_timeout = (ut / 1000.0) if isinstance(ut, (int, float)) and ut > 0 else None
         free = self.ep.free()
         if free <= 0:
             raise BlockingIOError(errno.EWOULDBLOCK, "would block")
@@ -229,6 +271,8 @@ class SimSocket:
             return n          # bytes written into a dead link vanish
         self.ep.peer.rx += bytes(data[:n])
         self.ep.peer.total_in += n
+        if len(self.ep.peer.rx) > self.net.rcvbuf and self.ep.stall_since is None:
+            self.ep.stall_since = s.now
         self.net.log.append(("send", len(data), n))
         self.net.wake()
         return n
@@ -258,8 +302,10 @@ class SimSocket:
                 raise BlockingIOError(errno.EWOULDBLOCK, "would block")
             self.net.waiters.append(s.me())
             s.block(("recv",))
+        self.ep.before_read()
         data = bytes(self.ep.rx[:n])
         del self.ep.rx[:n]
+        self.ep.after_read()
         self.net.wake()
         return data
 
